@@ -82,6 +82,22 @@ def _per_config(ctx, R, fn, configs=None):
         R.extend(r)
 
 
+def _tab3_reads(units, r):
+    """TAB3 without the exhaustiveness of the two kind switches (print_value: C05, cJSON_Compare: C12)"""
+    from .rules import tree
+    tree.tab3(units, r, switches=())
+
+
+def _tab3_print(units, r):
+    from .rules import tree
+    tree.tab3(units, r, switches=('print_value',))
+
+
+def _tab3_compare(units, r):
+    from .rules import tree
+    tree.tab3(units, r, switches=('cJSON_Compare',))
+
+
 def _tab1_parse(units, r):
     """the parser's recursion (C01, C03); the duplicator's is C11's"""
     from .rules import parse
@@ -222,7 +238,7 @@ def run_C16(ctx, R):
     from .rules import shape
     _per_config(ctx, R, lambda units, r: shape.shp1(units, r, only_unit='cJSON_Utils.c'))
     from .rules import tree
-    _scoped(ctx, R, tree.tab3, C16_ENTRIES, 4)
+    _scoped(ctx, R, _tab3_reads, C16_ENTRIES, 4)
 
 
 def _own_utils(names):
@@ -251,7 +267,7 @@ def run_C17(ctx, R):
     _per_config(ctx, R, utilsx.ord2)
     _per_config(ctx, R, utilsx.dig1)
     from .rules import tree
-    _scoped(ctx, R, tree.tab3, C17_ENTRIES, 4)
+    _scoped(ctx, R, _tab3_reads, C17_ENTRIES, 4)
     _scoped(ctx, R, utilsx.esc1, C17_ENTRIES, 1)
     _per_config(ctx, R, tab.tab9)
     _scoped(ctx, R, out.out5, C17_ENTRIES, 3)
@@ -273,7 +289,7 @@ def run_C18(ctx, R):
     _scoped(ctx, R, lst.lst1, C18_ENTRIES, 3)
     _per_config(ctx, R, lst.lst5)
     from .rules import tree
-    _scoped(ctx, R, tree.tab3, C18_ENTRIES, 6)
+    _scoped(ctx, R, _tab3_reads, C18_ENTRIES, 6)
     _per_config(ctx, R, utilsx.mrg5)
     _per_config(ctx, R, utilsx.ord2)
 
@@ -441,7 +457,7 @@ def run_C12(ctx, R):
     _per_config(ctx, R, lambda units, r: cmpfold.cmp1(units, r, unit_names=('cJSON.c',)))
     _per_config(ctx, R, tree.eff6)
     _per_config(ctx, R, tree.c12_structure)
-    _per_config(ctx, R, _only_functions(tree.tab3, {'cJSON_Compare', 'cJSON_IsInvalid', 'cJSON_IsFalse', 'cJSON_IsTrue', 'cJSON_IsBool',
+    _per_config(ctx, R, _only_functions(_tab3_compare, {'cJSON_Compare', 'cJSON_IsInvalid', 'cJSON_IsFalse', 'cJSON_IsTrue', 'cJSON_IsBool',
                                                     'cJSON_IsNull', 'cJSON_IsNumber', 'cJSON_IsString', 'cJSON_IsArray', 'cJSON_IsObject',
                                                     'cJSON_IsRaw'}, 'TAB3', 4))
     _scoped(ctx, R, tab.tab11, {'cJSON_Compare'}, 4)
@@ -497,7 +513,7 @@ def run_C05(ctx, R):
     from .rules import outbuf, tree
     _per_config(ctx, R, _inl(outbuf.tab2_print))
     _per_config(ctx, R, outbuf.tab15)
-    _per_config(ctx, R, _only_functions(tree.tab3, {'print_value'}, 'TAB3', 3))
+    _per_config(ctx, R, _only_functions(_tab3_print, {'print_value'}, 'TAB3', 3))
     _per_config(ctx, R, outbuf.tab5bc)
     _per_config(ctx, R, outbuf.tab16)
     from .rules import numcls
